@@ -8,6 +8,7 @@ import (
 	"path/filepath"
 	"sort"
 	"strings"
+	"time"
 
 	"github.com/Vedant9500/WTF/internal/database"
 	"github.com/Vedant9500/WTF/internal/zzverif/vlib"
@@ -280,7 +281,15 @@ func c03Query(r *rand.Rand, words []string) string {
 func engineIndexScan(ctx *Ctx) {
 	r := vlib.NewRand(ctx.Seed, ctx.Shard, "indexscan")
 	nHist := ctx.N(640, 32000)
+	prevStart, prevKind := time.Now(), "ordinary"
 	for h := 0; h < nHist; h++ {
+		if h > 0 {
+			c18AddExtra(ctx, "cpu_seconds_"+prevKind, time.Since(prevStart).Seconds())
+		}
+		tH := time.Now()
+		hk := "ordinary"
+		prevStart, prevKind = tH, "ordinary-histories"
+		_ = hk
 		sp := dbSpecFor(r, h+ctx.Shard)
 		sp.Unicode = h%3 == 0
 		sp.MixedCase = h%4 == 0
@@ -288,10 +297,10 @@ func engineIndexScan(ctx *Ctx) {
 			sp.N = 300
 		}
 		base := vlib.GenCommands(r, sp)
-		if g := ctx.G(h); g%24 == 11 && len(base) > 1 {
+		if g := ctx.G(h); h%24 == (ctx.Shard*5+3)%24 && len(base) > 1 { // (spread evenly over the shards: such entries are slow to scan)
 			// an entry that repeats one word tens of thousands of times in one field (a pasted log, a generated list): term
 			// frequencies around and beyond 2^16
-			K := []int{65535, 65536, 65537, 70000, 66001, 40000}[(g/24)%6]
+			K := []int{65535, 65536, 65537, 70000, 66001, 40000}[(g/7)%6]
 			w := vlib.Word(r, vlib.DBWords(base))
 			i := r.Intn(len(base))
 			switch r.Intn(3) {
@@ -307,6 +316,9 @@ func engineIndexScan(ctx *Ctx) {
 				base[i].Keywords = kw
 			}
 			ctx.R.Path("entries-with-a-word-repeated-around-65536-times", 1)
+			hk = "word-repeated"
+			_ = hk
+			prevKind = "histories-with-a-word-repeated-65536-times"
 		}
 		var extraWords []string
 		if g := ctx.G(h); g%5 == 2 && len(base) > 1 {
